@@ -38,7 +38,8 @@ Dom(fn) ==
     [] fn \in {"bidib_send_feature_set", "bidib_send_string_get", "bidib_send_lc_port_query", "bidib_send_lc_configx_get",
                "bidib_send_lc_macro_get", "bidib_send_lc_macro_para_get"} -> <<B, B>>
     [] fn \in {"bidib_send_vendor_enable", "bidib_send_fw_update_op_enter"} -> <<Uid>>
-    [] fn = "bidib_send_vendor_set" -> <<{0, 1, 59, 60, 119, 120}, {Ramp(120)}, {0, 1, 59, 60, 119, 120}, {Ramp(120), Rep(253, 120)}>>
+    \* 127 / 128 / 200 / 254 / 255: sums of the two lengths beyond 8 bits (an 8-bit sum would wrap into the accepted range)
+    [] fn = "bidib_send_vendor_set" -> <<{0, 1, 59, 60, 119, 120, 127, 128, 200, 254, 255}, {Ramp(120)}, {0, 1, 59, 60, 119, 120, 127, 128, 200, 254, 255}, {Ramp(120), Rep(253, 120)}>>
     [] fn = "bidib_send_vendor_get" -> <<{0, 1, 119, 120, 121, 255}, {Ramp(121), Rep(254, 121)}>>
     [] fn = "bidib_send_string_set" -> <<{0, 255}, {0, 255}, {0, 1, 117, 118, 119, 255}, {Ramp(119), Rep(253, 119)}>>
     [] fn = "bidib_send_fw_update_op_data" -> <<{0, 1, 119, 120, 121, 122, 255}, {Ramp(122), [i \in 1..122 |-> IF i % 5 = 0 THEN 32 ELSE IF i % 7 = 0 THEN 10 ELSE 58],
